@@ -168,7 +168,9 @@ def snapshot_layer_rule(lr) -> dict | None:
     for name, args, res in trace_of(lr):
         if res != "ok":
             continue
-        if name.startswith("access_") or name.startswith("be_accessed_"):
+        if name == "layers_that":
+            subjects, objects, phase = [], [], "subject"  # starts the rule afresh
+        elif name.startswith("access_") or name.startswith("be_accessed_"):
             phase = "object"
         elif name == "are_named" and args:
             x = args[0]
